@@ -17,6 +17,7 @@ v=[x for x in m.get('variants',[]) if x.get('name')==sys.argv[2]]
 json.dump(dict(property=m.get('property'),variant=sys.argv[2],**(v[0] if v else {})),open(sys.argv[3],'w'),indent=1)
 PY
 git -C $W checkout -q -- . || exit 2
+git -C $W checkout -q --detach $(git -C /repo rev-parse HEAD) || exit 2   # later fix: commits of /repo are part of the unchanged tree
 {
 echo "== unchanged tree: demo"
 ninja -C $W/_build soundswallower >/dev/null 2>&1
